@@ -45,7 +45,7 @@ func TestVerifC17SM4(t *testing.T) {
 		g.ReadOnly()
 		return g
 	}
-	rounds := hk.N(3, 12)
+	rounds := hk.N(4, 12)
 	var maxInflight, overlapped, total int64
 	for _, asm := range paths() {
 		asm := asm
@@ -57,16 +57,27 @@ func TestVerifC17SM4(t *testing.T) {
 				key := rng.Bytes(16)
 				gKey := protect(key)
 				blk, _ := NewCipher(gKey.B)
-				nonceV := rng.Bytes(12)
+				var nonceV []byte
 				var aead cipher.AEAD
-				aead, _ = cipher.NewGCM(blk)
+				// vary the AEAD family per round: default, truncated tags, non-standard nonce
+				tagSize, nonceLen := 16, 12
+				switch round % 4 {
+				case 1:
+					tagSize = 12
+				case 2:
+					nonceLen = 17
+				case 3:
+					tagSize = 13
+				}
+				nonceV = rng.Bytes(nonceLen)
+				aead, _ = newAEADFromBlock(blk, nonceLen, tagSize)
 				g := ref.NewGCM(key)
 				gNonce := protect(nonceV)
 				// few distinct messages so that the same buffers are used concurrently
 				var ops []*c17op
 				for _, pl := range []int{0, 1, 16, 33, 64, 100, 256, 300, 1100} {
 					pt, aadV := rng.Bytes(pl), rng.Bytes(rng.Pick([]int{0, 7, 16, 130}))
-					sealed := g.Seal(nonceV, pt, aadV, 16)
+					sealed := g.Seal(nonceV, pt, aadV, tagSize)
 					gPt, gAad, gCt := protect(pt), protect(aadV), protect(sealed)
 					ops = append(ops, &c17op{"seal", gPt, gAad, gNonce, sealed, true})
 					ops = append(ops, &c17op{"open", gCt, gAad, gNonce, pt, true})
@@ -159,7 +170,7 @@ func TestVerifC17SM4(t *testing.T) {
 				if !bytes.Equal(gKey.B, key) || !bytes.Equal(gNonce.B, nonceV) {
 					r.Violation("shared-key-or-nonce-changed:"+pn, hk.D{})
 				}
-				r.EvalN(fmt.Sprintf("%s|workers=%d|gomaxprocs=%d", pn, workers, procs), workers*iters)
+				r.EvalN(fmt.Sprintf("%s|workers=%d|gomaxprocs=%d|tag=%d|nonce=%d", pn, workers, procs, tagSize, nonceLen), workers*iters)
 				runtime.GOMAXPROCS(old)
 				freed := map[*hk.GBuf]bool{}
 				for _, op := range ops {
